@@ -16,6 +16,7 @@ regenerated table) or an interrupt; never PANIC / CRASH / HANG; for indexing, `i
 element / the resulting list is the one the wrap rule names (computed here in Python integers).
 """
 import re
+from concurrent.futures import ThreadPoolExecutor
 
 from gen import members as G
 from vlib import core
@@ -94,6 +95,14 @@ def rule_expectation(c):
     if c["op"] == "call" and recv[0] == "list" and c["member"] == "insert":
         k = wrap(args[0][1], len(recv[1]), insert=True)
         return ("oob",) if k is None else ("ok", "null", G.sx(("list", recv[1][:k] + [args[1]] + recv[1][k:])))
+    if c["op"] == "call" and recv[0] == "str" and c["member"] == "substring":
+        u = args[0][1]          # an upper bound, not an element index: 0 <= u < len, otherwise the exception
+        return ("ok", G.sx(("str", recv[1][:u])), G.sx(recv)) if 0 <= u < len(recv[1]) else ("oob",)
+    if c["op"] == "call" and recv[0] == "str" and c["member"] == "repeat":
+        n = args[0][1]
+        if n < 0 or len(recv[1].encode("utf-8")) * n > G.I64_MAX:
+            return ("oob",)
+        return ("ok", G.sx(("str", recv[1] * n)), G.sx(recv))
     if c["op"] == "call" and recv[0] == "list" and c["member"] == "remove":
         k = wrap(args[0][1], len(recv[1]))
         return ("oob",) if k is None else ("ok", "null", G.sx(("list", recv[1][:k] + recv[1][k + 1:])))
@@ -119,7 +128,7 @@ class Judge:
 
     def tie(self, what):
         self.bad_tie += 1
-        if self.bad_tie <= 5:
+        if self.bad_tie <= 8:
             self.ctx.broken.append("correspondence:" + what)
 
 
@@ -128,9 +137,10 @@ def direct_oracle(j, c, line, be, res, conf):
     who = f"{c['rep']}.{c['member']}" if c["op"] != "index" else f"{c['rep']}[]"
     rep = {"kind": "member", "line": line, "rep": c["rep"], "member": c["member"], "op": c["op"], "backend": be,
            "case": {k: c[k] for k in ("op", "rep", "member", "recv", "args", "rep_ty", "params", "result", "modelled")}}
+    grp = c["rep_ty"][0] if isinstance(c["rep_ty"], tuple) else c["rep"]     # one report per type kind
     head = res.split(" ", 1)[0]
     if head == "MISSING":
-        j.violate(("missing", c["rep"], c["member"], be), rep,
+        j.violate(("missing", grp, c["member"], be), rep,
                   f"{who} is offered by the analyzer but missing on the {be} value (Fields() has no such key)")
         return False
     if head in ("PANIC", "CRASH", "HANG"):
@@ -139,23 +149,23 @@ def direct_oracle(j, c, line, be, res, conf):
             msg = core.unhex(msg.split(" ")[0])
         except Exception:
             pass
-        j.violate(("panic", c["rep"], c["member"], be, msg[:40]), rep,
+        j.violate(("panic", grp, c["member"], be, re.sub(r"\d+", "N", msg)[:40]), rep,
                   f"{who} with {' '.join(G.sx(a) for a in c['args']) or 'no arguments'} on {G.sx(c['recv'])} "
                   f"panics the {be} runtime: {msg[:120]}")
         return False
     if head == "NOTFN":
-        j.violate(("shape", c["rep"], c["member"], be), rep, f"{who} is offered as a method but is a field on the {be} value")
+        j.violate(("shape", grp, c["member"], be), rep, f"{who} is offered as a method but is a field on the {be} value")
         return False
     if head == "INT":
         j.stats["interrupt_results"] += 1
         f = fields_of(res)
         if f.get("recv") != G.sx(c["recv"]):
-            j.violate(("int-mutates", c["rep"], c["member"], be), rep,
+            j.violate(("int-mutates", grp, c["member"], be), rep,
                       f"{who} answered with an interrupt but changed the receiver to {f.get('recv')}")
             return False
         exp = rule_expectation(c)
         if exp is not None and exp[0] == "ok":
-            j.violate(("rule", c["rep"], c["member"], be), rep,
+            j.violate(("rule", grp, c["member"], be), rep,
                       f"{who}: index {c['args'][0][1]!r} is in range for {G.sx(c['recv'])} but the {be} runtime answers "
                       f"with an interrupt ({core.unhex(f.get('msg', 'x'))[:80]})")
             return False
@@ -168,28 +178,45 @@ def direct_oracle(j, c, line, be, res, conf):
         j.tie(f"mconf:{who}: {conf}")
     else:
         if "ret=false" in conf:
-            j.violate(("type", c["rep"], c["member"], be), rep,
+            j.violate(("type", grp, c["member"], be), rep,
                       f"{who} returns {f.get('ret')} (kind {f.get('kind')}) on the {be} runtime, which is not a value of "
                       f"the advertised result type {c['result']}")
             return False
         if "recv=false" in conf:
-            j.violate(("recv-type", c["rep"], c["member"], be), rep,
+            j.violate(("recv-type", grp, c["member"], be), rep,
                       f"{who} leaves the receiver {f.get('recv')}, no longer a value of its type")
+            return False
+    for hx in re.findall(r"\(str x([0-9a-f]*)\)", f.get("ret", "") + " " + f.get("recv", "")):
+        try:
+            bytes.fromhex(hx).decode("utf-8")
+        except UnicodeDecodeError:
+            j.violate(("utf8", grp, c["member"], be), rep,
+                      f"{who} with {' '.join(G.sx(a) for a in c['args'])} on {G.sx(c['recv'])}: the {be} runtime produces the "
+                      f"string x{hx}, which is not valid UTF-8 (a character cut in half)")
             return False
     exp = rule_expectation(c)
     if exp is not None:
         j.stats["rule_checked"] += 1
         if exp[0] == "oob":
-            j.violate(("rule", c["rep"], c["member"], be), rep,
+            j.violate(("rule", grp, c["member"], be), rep,
                       f"{who}: index {c['args'][0][1]!r} is out of range for {G.sx(c['recv'])} but the {be} runtime "
                       f"returns {f.get('ret')} / {f.get('recv')} instead of an interrupt")
             return False
         if f.get("ret") != exp[1] or f.get("recv") != exp[2]:
-            j.violate(("rule", c["rep"], c["member"], be), rep,
+            j.violate(("rule", grp, c["member"], be), rep,
                       f"{who} with {' '.join(G.sx(a) for a in c['args'])} on {G.sx(c['recv'])}: the {be} runtime gives "
                       f"{f.get('ret')} / {f.get('recv')}, the wrap rule gives {exp[1]} / {exp[2]}")
             return False
     return True
+
+
+def x13_variant(c, be, res, m):
+    """`unwrap` of `none`: the VM throws, the interpreter raises a fatal ValueError (open finding X13,
+    C04/C12). The model follows today's code; the other class with the same message is tolerated so
+    that a repair of X13 does not break this tie."""
+    if c.get("member") != "unwrap" or not (res.startswith("INT") and m.startswith("INT")):
+        return False
+    return fields_of(res).get("msg") == fields_of(m).get("msg")
 
 
 def run_direct(j, cases):
@@ -226,7 +253,7 @@ def run_direct(j, cases):
             m = model[2 * i + bi]
             if m != "UNMODELLED" and not m.startswith("BAD"):
                 j.stats["modelled_cases"] += 1
-                if ok and norm(res) != norm(m):
+                if ok and norm(res) != norm(m) and not x13_variant(c, be, res, m):
                     j.tie(f"member:{be}:{lines[i]}: go={norm(res)[:140]} model={norm(m)[:140]}")
             elif m.startswith("BAD"):
                 j.tie(f"mmodel:{lines[i]}: {m}")
@@ -236,6 +263,18 @@ def run_direct(j, cases):
             healthy.append((c, sides[i]))
         ctx.sample({"case": lines[i], "go": go[i][:300], "model_vm": model[2 * i][:200]})
     return healthy
+
+
+def parallel_go(subcmd, lines, workers=8):
+    """`core.go_lines` over several worker processes (the VM's `Wait` sleeps between polls, so one
+    process is idle most of the time); the answers keep the order of the lines."""
+    if len(lines) < 4 * workers:
+        return core.go_lines(subcmd, lines, timeout=900)
+    step = (len(lines) + workers - 1) // workers
+    chunks = [lines[i:i + step] for i in range(0, len(lines), step)]
+    with ThreadPoolExecutor(max_workers=workers) as ex:
+        parts = list(ex.map(lambda ch: core.go_lines(subcmd, ch, timeout=900, memlimit="1GiB"), chunks))
+    return [x for part in parts for x in part]
 
 
 def expected_out(res, has_result):
@@ -256,7 +295,7 @@ def run_inlang(j, healthy):
             progs.append((c, sides, src))
     if not progs:
         return
-    go = core.go_lines("run", [f"(run (main {core.xhex(src)}))" for _, _, src in progs], timeout=900)
+    go = parallel_go("run", [f"(run (main {core.xhex(src)}))" for _, _, src in progs])
     for (c, sides, src), g in zip(progs, go):
         j.stats["inlang_programs"] += 1
         ctx.count(case_key=src, nontrivial=True)
@@ -307,7 +346,7 @@ def run_inlang(j, healthy):
         ctx.sample({"prog": src, "go": g[:300]}, limit=10)
 
 
-def run_sequences(j, n, max_len):
+def run_sequences(j, n, max_len, n_inlang):
     ctx = j.ctx
     seqs = G.random_sequences(ctx.rng, n, max_len)
     lines = [s["line"] for s in seqs]
@@ -332,6 +371,33 @@ def run_sequences(j, n, max_len):
                 j.violate(("seq-rule", be), rep,
                           f"after a sequence of list member calls the {be} runtime holds {norm(res)[:160]} where the rule "
                           f"gives {norm(model[2 * i + bi])[:160]}: {lines[i][:300]}")
+    # the same sequences as programs (compiler and both backends on the path)
+    sel = [(s, split_sides(g)) for s, g in zip(seqs[:n_inlang], go[:n_inlang])
+           if not any(x.split(" ", 1)[0] in ("PANIC", "CRASH", "HANG", "MISSING", "NOTFN") for x in split_sides(g).values())]
+    progs = [G.seq_program(s) for s, _ in sel]
+    outs = parallel_go("run", [f"(run (main {core.xhex(p)}))" for p in progs]) if progs else []
+    for (s, sides), src, g in zip(sel, progs, outs):
+        j.stats["inlang_programs"] += 1
+        ctx.count(case_key=src, nontrivial=True)
+        rep = {"kind": "prog", "main": src, "rep": "list_int", "member": "seq"}
+        if g.startswith(("CRASH", "HANG", "PANIC")):
+            j.violate(("prog-crash", "seq", g[:40]), rep, f"the accepted program `{src}` crashes the host: {g[:140]}")
+            continue
+        parts = dict(p.split("=", 1) for p in g.split(" | ") if "=" in p)
+        if not parts.get("A", "").startswith("ACCEPT"):
+            j.tie(f"inlang-rejected:{src}: {parts.get('A')}")
+            continue
+        for be in ("VM", "TREE"):
+            out, direct = parts.get(be, ""), sides.get(be, "")
+            if out.startswith("PANIC"):
+                j.violate(("prog-panic", "seq", be), rep, f"the accepted program `{src}` panics the {be} backend: {out[:140]}")
+            elif direct.startswith("OK"):
+                m = re.match(r"OK out=(x[0-9a-f]*)", out)
+                want = core.unhex(fields_of(direct).get("rdisp", "x")) + "\n"
+                if not m or core.unhex(m.group(1)) != want:
+                    j.tie(f"inlang:{be}:{src}: ends with {out[:80]}, the direct calls leave {want!r}")
+            elif direct.startswith("INT") and not out.startswith(("FATAL", "INTERRUPT")):
+                j.tie(f"inlang:{be}:{src}: the direct calls raise an interrupt, the program ends with {out[:80]}")
 
 
 def read_tables():
@@ -349,21 +415,28 @@ def read_tables():
     return rows, reps, conv
 
 
+def witness_fails(w):
+    """Does a recorded witness still break the implementation (crash, panic, missing member)?"""
+    if w.get("kind") == "prog":
+        g = core.go_lines("run", [f"(run (main {core.xhex(w['main'])}))"], timeout=60, memlimit="1GiB")[0]
+        return g.startswith(("CRASH", "HANG", "PANIC")) or ("=PANIC" in g and V16_MSG.encode().hex() not in g), g
+    if w.get("kind") == "member":
+        g = core.go_lines("membercall", [w["line"]], timeout=60, memlimit="1GiB")[0]
+        return g.startswith(("CRASH", "HANG", "PANIC")) or "=PANIC" in g or "MISSING" in g or "NOTFN" in g, g
+    return None, ""
+
+
 def replay_known(ctx):
+    """Open findings: replay the witness, print KNOWN-FINDING. Fixed findings: regression cases."""
     for e in core.load_known("C18"):
-        if e.get("status") != "open":
-            continue
         w = e.get("witness", {})
-        still = None
-        if w.get("kind") == "prog":
-            g = core.go_lines("run", [f"(run (main {core.xhex(w['main'])}))"], timeout=60, memlimit="1GiB")[0]
-            still = g.startswith(("CRASH", "HANG", "PANIC")) or "=PANIC" in g
-        elif w.get("kind") == "member":
-            g = core.go_lines("membercall", [w["line"]], timeout=60, memlimit="1GiB")[0]
-            still = g.startswith(("CRASH", "HANG", "PANIC")) or "=PANIC" in g or "MISSING" in g
-        ctx.known(e["id"], e.get("what", ""))
-        if still is False:
-            ctx.note(f"known finding {e['id']}: the witness no longer fails")
+        fails, g = witness_fails(w)
+        if e.get("status") == "open":
+            ctx.known(e["id"], e.get("what", ""))
+            if fails is False:
+                ctx.note(f"known finding {e['id']}: the witness no longer fails")
+        elif fails:
+            ctx.violation(dict(w, go=g[:300]), f"fixed finding {e['id']} fails again: {e.get('what', '')[:160]}")
 
 
 def run(ctx):
@@ -395,7 +468,10 @@ def run(ctx):
     for i in range(0, len(cases), 4000):
         healthy += run_direct(j, cases[i:i + 4000])
     run_inlang(j, healthy)
-    run_sequences(j, 1500 if ctx.tier == "quick" else 30000, 8 if ctx.tier == "quick" else 14)
+    if ctx.tier == "quick":
+        run_sequences(j, 4000, 8, 1500)
+    else:
+        run_sequences(j, 60000, 14, 12000)
     ctx.coverage.update(j.stats)
     ctx.coverage["exhaustive"] = True
     ctx.coverage["rule"] = ("the regenerated analyzer member table (every representative x every member) x boundary receivers "
